@@ -5,6 +5,7 @@
      WTerm     one mpt_queue_push(queue, 0, 0)        (terminate the message)
      WWire k   the transport takes up to k finished bytes off the front of the ring
                (the writer half of do_wire in StreamRun.v: mpt_queue_get + mpt_queue_crop + done -= k)
+     WGrow n f the caller enlarges the ring (mpt_queue_prepare, as mpt_stream_push does)
    run on the ring-level model [equeue_push] of QueueCodec.v.  The theorem: whatever the
    history, the bytes handed to the transport followed by the bytes still in the ring are
    the frames of the completed messages, in order, followed by the open frame of the bytes
@@ -13,12 +14,13 @@
    All branches of mpt_queue_push are covered (aligned, upper part, lower part, out-of-band copy
    of a straddling open block, align-and-retry, second push); the run returns None only if the
    model itself reports a fault (which the theorem excludes). *)
-From MptV Require Import Base.Mem Base.Tactics C13.QueueModel C13.QueueProofs C13.QueueAlign
+From MptV Require Import Base.Mem Base.Tactics C13.QueueModel C13.QueueSpec C13.QueueProofs C13.QueueAlign C13.IoQueueProofs
   Cobs.CobsModel Cobs.EncProofs Cobs.EncTheorems Cobs.EncShift Cobs.QueueCodec Cobs.QueuePushProofs
   Cobs.QueuePushTheorem Cobs.StreamRun Cobs.DecModel Cobs.DecComplete Cobs.StreamProofs.
 Local Open Scope nat_scope.
 
-Inductive wop := WData (d : list byte) | WTerm | WWire (k : nat).
+Inductive wop := WData (d : list byte) | WTerm | WWire (k : nat)
+  | WGrow (n : nat) (fill : byte).   (* mpt_queue_prepare on the output ring (mpt_stream_push) *)
 
 (* writer half of do_wire *)
 Definition wire_writer (e : equeue) (n : nat) : res (equeue * list byte) :=
@@ -56,6 +58,12 @@ Definition wh_step (v : variant) (s : wh) (o : wop) : option wh :=
     match wire_writer (wh_e s) n with
     | Ok (e', bytes) => Some (mkwh e' (wh_sent s ++ bytes) (wh_done s) (wh_cur s))
     | _ => None
+    end
+  | WGrow n fill =>
+    match qprepare (eq_q (wh_e s)) n fill with
+    | Ok (q', _) => Some (mkwh (mkeq q' (eq_st (wh_e s))) (wh_sent s) (wh_done s) (wh_cur s))
+    | Err _ => Some s
+    | Fault => None
     end
   end.
 
@@ -120,6 +128,44 @@ Proof.
   split; [assumption|]. apply EI_idle; [assumption| rewrite <- Hb; assumption | assumption | reflexivity].
 Qed.
 
+(* enlarging keeps contents and length; the offset stays inside the (larger) storage *)
+Lemma qprepare_grow q n f : qinv q -> (qoff q < qmax q \/ qmax q = 0) ->
+  exists q' r, qprepare q n f = Ok (q', r) /\ qinv q' /\ contents q' = contents q /\ qlen q' = qlen q /\
+    (0 < n \/ 0 < qmax q -> qoff q' < qmax q') /\ n <= qmax q' - qlen q'.
+Proof.
+  intros Hq Hoff. pose proof Hq as (Hb & Hl & Ho).
+  destruct (IoQueueProofs.qprepare_full q n f Hq) as (q' & r & E & Hq' & Hm & Hc & Hlen & Hr).
+  exists q', r. split; [exact E|]. split; [exact Hq'|]. split; [exact Hc|]. split; [exact Hlen|].
+  split; [|rewrite Hm, Hlen; apply IoQueueProofs.grow_cap_room; exact Hl].
+  intros Hpos. unfold qprepare in E.
+  destruct (Nat.ltb_spec (qmax q - qlen q) n) as [Hlt|Hge].
+  - set (want := n - (qmax q - qlen q) + qmax q) in *.
+    pose proof (align8_ge want ltac:(unfold want; lia)) as Ha.
+    unfold qresize in E.
+    destruct (Nat.eqb_spec (align8 want) 0); [unfold want in *; lia|].
+    destruct (Nat.ltb_spec (align8 want) (qmax q)); [unfold want in *; lia|].
+    destruct (Nat.ltb_spec (qmax q) (align8 want)); [|unfold want in *; lia].
+    destruct (qfrag q) eqn:Ef.
+    + destruct (qalign_spec q 0 Hq) as (q1 & E1 & Hq1 & Hm1 & Hl1 & Ho1 & Hc1). rewrite E1 in E. cbn [bind] in E.
+      inversion E; subst q' r. cbn [qoff qmax]. rewrite (Ho1 eq_refl). lia.
+    + cbn [bind] in E. inversion E; subst q' r. cbn [qoff qmax]. unfold want in *. lia.
+  - inversion E; subst q' r. destruct Hoff; lia.
+Qed.
+
+Lemma wh_grow_inv v s n fill s' : wh_inv v s ->
+  match qprepare (eq_q (wh_e s)) n fill with
+  | Ok (q', _) => Some (mkwh (mkeq q' (eq_st (wh_e s))) (wh_sent s) (wh_done s) (wh_cur s))
+  | Err _ => Some s
+  | Fault => None
+  end = Some s' -> wh_inv v s'.
+Proof.
+  intros (Hlt & pre & Hf & [[Hq Hl] Hinv]) H.
+  destruct (qprepare_grow (eq_q (wh_e s)) n fill Hq ltac:(left; exact Hlt)) as (q' & r & E & Hq' & Hc & Hlen & Hoff & _).
+  rewrite E in H. inversion H; subst s'; clear H. unfold wh_inv. cbn [wh_e wh_sent wh_done wh_cur].
+  split; [cbn [eq_q]; apply Hoff; right; lia|]. exists pre. split; [exact Hf|].
+  split; [split; cbn [eq_q eq_st]; [exact Hq'|rewrite Hlen; exact Hl]|]. cbn [eq_q eq_st]. rewrite Hc. exact Hinv.
+Qed.
+
 Lemma wh_term_inv v s s' : variant_ok v -> wh_inv v s ->
   match equeue_push v (wh_e s) None with
   | Ok (EInt _, e') => Some (mkwh e' (wh_sent s) (wh_done s ++ [wh_cur s]) [])
@@ -142,7 +188,7 @@ Qed.
 
 Theorem wh_step_inv v s o s' : variant_ok v -> wh_inv v s -> wh_step v s o = Some s' -> wh_inv v s'.
 Proof.
-  intros Hv Hi H. destruct o as [[|x d]| |n]; cbn [wh_step] in H.
+  intros Hv Hi H. destruct o as [[|x d]| |n|n fill]; cbn [wh_step] in H; [| | | |apply (wh_grow_inv v s n fill s' Hi H)].
   - apply (wh_term_inv v s s' Hv Hi H).
   - destruct Hi as (Hlt & pre & Hf & Hr).
     pose proof (equeue_push_refines v (wh_e s) (wh_sent s) pre (wh_cur s) (Some (x :: d)) Hv Hr Hlt) as Hp.
@@ -171,7 +217,8 @@ Proof.
     destruct (equeue_push v (wh_e s) arg) as [[r e']| |]; try contradiction.
     cbn [push_ok] in Hp. destruct Hp as (Hp & _). destruct r; try exact I.
     destruct (norm_arg arg); contradiction. }
-  destruct o as [[|x d]| |n]; cbn [wh_step].
+  destruct o as [[|x d]| |n|n fill]; cbn [wh_step];
+    [| | | |destruct Hr as [[Hq _] _]; destruct (qprepare_spec (eq_q (wh_e s)) n fill Hq) as (q' & r & -> & _); eexists; reflexivity].
   - specialize (Hpush None). destruct (equeue_push v (wh_e s) None) as [[[k|er|] e']| |]; try contradiction; eexists; reflexivity.
   - specialize (Hpush (Some (x :: d))).
     destruct (equeue_push v (wh_e s) (Some (x :: d))) as [[[k|er|] e']| |]; try contradiction; eexists; reflexivity.
